@@ -119,6 +119,7 @@ bool Deployer::Run() {
 }
 
 bool Deployer::FinishWork() {
+  RIME_VERIF_YIELD(RIME_VERIF_FINISHWORK_ENTER);
   // checking the queue and giving up the worker role is one critical section:
   // StartWork() either finds running_ set, in which case the tasks enqueued so
   // far are seen here, or it finds running_ cleared and starts a new worker.
